@@ -93,7 +93,10 @@ class BasedRule(Rule):
         self.params = self.params or self.baserule.params
         self.kwparams = self.kwparams or self.baserule.kwparams
 
-        self.rhs = Sequence(ast=[self.baserule.exp, self.exp])
+        # NOTE: a base rule that is itself based contributes all it stands for
+        base = self.baserule
+        base_exp = base.rhs if isinstance(base, BasedRule) else base.exp
+        self.rhs = Sequence(ast=[base_exp, self.exp])
 
     def _parse(self, ctx: Ctx) -> Any:
         return self._parse_rhs(ctx, self.rhs)
